@@ -5,6 +5,7 @@ CONSTANTS
   Calls <- TraceCalls
   ChanCap <- TraceCap
   RegisterFirst <- TraceRF
+  Cancellable = {}
   MaxTasks <- TraceMaxTasks
 INVARIANTS
   TypeOK
